@@ -23,6 +23,14 @@ Theorem C03_reset_facts c : inv c ->
 Proof. exact (reset_facts c). Qed.
 Print Assumptions C03_reset_facts.
 
+Theorem C03_atoms_in_file_order evs : map a_name (atoms_of evs) = atom_lines false evs.
+Proof. exact (atoms_in_file_order evs). Qed.
+Print Assumptions C03_atoms_in_file_order.
+
+Theorem C03_atoms_count evs : length (atoms_of evs) = length (atom_lines false evs).
+Proof. exact (atoms_count evs). Qed.
+Print Assumptions C03_atoms_count.
+
 Theorem C03_ctx_example :
   map (fun a => (a_part a, a_afix a, a_resinum a, a_sof a, a_qpeak a))
       (atoms_of [EResi {| r_num := 2; r_class := lit "TOL" |}; EPart {| p_n := 1; p_sof := Some (21 # 1) |}; EAfix 43;
